@@ -185,8 +185,8 @@ Fixpoint skip_balanced (ts : list token) (depth : nat) (acc : list token) : opti
   match ts with
   | [] => None
   | (TSelf c as t) :: r =>
-      if Ascii.eqb c "(" then skip_balanced r (S depth) (acc ++ [t])
-      else if Ascii.eqb c ")" then
+      if Ascii.eqb c "(" || Ascii.eqb c "[" then skip_balanced r (S depth) (acc ++ [t])
+      else if Ascii.eqb c ")" || Ascii.eqb c "]" then
         match depth with O => Some (acc, ts) | S d => skip_balanced r d (acc ++ [t]) end
       else skip_balanced r depth (acc ++ [t])
   | t :: r => skip_balanced r depth (acc ++ [t])
@@ -290,6 +290,15 @@ with parse_prefix (fuel : nat) (ts : list token) {struct fuel} : option (rexpr *
             match parse_expr n L_NOT r with Some (e, r') => Some (PPre "NOT" e, r') | None => None end
           else if String.eqb u "CASE" then
             match skip_case r 0 [t] with Some (a, r') => Some (PAtom a, r') | None => None end
+          else if String.eqb u "ARRAY" && match r with TSelf c :: _ => Ascii.eqb c "[" | _ => false end then
+            (* ARRAY[ ... ] *)
+            match r with
+            | o :: r1 => match skip_balanced r1 0 [] with
+                         | Some (inner, cl :: r2) => Some (PAtom (t :: o :: inner ++ [cl]), r2)
+                         | _ => None
+                         end
+            | [] => None
+            end
           else
             match r with
             | TSelf c :: r' =>
